@@ -4,8 +4,19 @@ import (
 	"fmt"
 	"net/http"
 	"net/textproto"
+	"net/url"
 	"strings"
 )
+
+// ParseURI parses the request URI of an ammo entry. A URI that begins with "//" is a path with an empty first
+// segment (origin-form), as a server and the raw ammo format read it - not a network-path reference naming a
+// host, as url.Parse reads it.
+func ParseURI(rawURI string) (*url.URL, error) {
+	if strings.HasPrefix(rawURI, "//") {
+		return url.ParseRequestURI(rawURI)
+	}
+	return url.Parse(rawURI)
+}
 
 var ErrHeaderFormat = fmt.Errorf("header line wrong format: expect [key: value]")
 var ErrEmptyKey = fmt.Errorf("missing header key")
